@@ -265,7 +265,7 @@ pub proof fn lemma_c18_uint_roundtrip(n: nat)
 //%fn packages/bignumber/src/math.rs | impl From<Decimal> for Decimal256 | from
 //%%rewrite #1 /fn from\(val: Decimal\) -> Self/ => pub fn decimal256_from_decimal(val: Decimal) -> Decimal256 ## the From impl is lifted to a free function (the trait impl itself is the assumed one in units/math_decimal_conv.rs)
 //%%sig
-    ensures /*[C18,C08 widen.decimal-to-decimal256]*/ r.0.v() == val.0 as nat,
+    ensures /*[C18,C08,C10,C15 widen.decimal-to-decimal256]*/ r.0.v() == val.0 as nat,
 //%%head
     proof { lemma_u128_lt_p256(val.0); lemma_c18_dec_roundtrip(val.0 as nat); }
 //%end
